@@ -63,3 +63,35 @@ Example C03_reorg_example :
   nth 13 (run 60000 C03_reorg_example_ops) [] = [0; 3; 2; 3; 2; 2; 0; 1; 1; 1; -1; 2; 1; 0; 1; 0; 0; 3] /\
   txflow_stale_monitor 60000 C03_reorg_example_ops (run 60000 C03_reorg_example_ops) = Some (9, [181]).
 Proof. vm_compute. repeat split; reflexivity. Qed.
+
+(* Regression (fixes 88c7660, fff2206, da5061e, bf1d52c): the four reorganisation histories on which the code used
+   to violate the properties are inside the hypothesis and the monitor is satisfied.
+   A: the orphaned tx 1 that was reported unsafe is re-submitted locally: delivered as new, unsafe, NOT safe.
+   B: it is confirmed again by the competing block before being announced again: delivered as new, unsafe.
+   C: tx 1 was sent again while confirmed, its block is orphaned, a block of the new branch confirms it while in
+      sync: it is notified (as new) with that block's proof.
+   G: the conflict with tx 2 was seen while tx 1 was confirmed; after the orphaning and a restart tx 1 is announced
+      again: the restarted node still holds tx 2's body, tx 1 is delivered unsafe and never reported safe. *)
+Definition C03_t1 : btx := (1, [1000], true).
+Example C03_fixed_A_ops : list op :=
+  [OSetInSync true; OTx 1 [1000] true STrusted; OTx 2 [1000; 1001] true SUntrusted; OBlock 1 0 [C03_t1] true;
+   OReorg 2 0 [] true; OTx 1 [1000] true SLocal].
+Example C03_fixed_B_ops : list op :=
+  [OSetInSync true; OTx 1 [1000] true STrusted; OTx 2 [1000; 1001] true SUntrusted; OBlock 1 0 [C03_t1] true;
+   OReorg 2 0 [C03_t1] true].
+Example C03_fixed_C_ops : list op :=
+  [OSetInSync true; OBlock 1 0 [C03_t1] true; OTx 1 [1000] true SUntrusted; OReorg 2 0 [] true; OSetInSync true;
+   OBlock 3 2 [C03_t1] true].
+Example C03_fixed_G_ops : list op :=
+  [OSetInSync true; OBlock 1 0 [C03_t1] true; OTx 1 [1000] true SUntrusted; OTx 2 [1000; 1001] true SUntrusted;
+   OReorg 2 0 [] true; ORestart; OSetInSync true; OTx 1 [1000] true STrusted; OAdvance 75000; ODelayCheck].
+Example C03_fixed_examples :
+  map (fun ops => (flow_valid 60000 ops, txflow_monitor 60000 ops (run 60000 ops)))
+      [C03_fixed_A_ops; C03_fixed_B_ops; C03_fixed_C_ops; C03_fixed_G_ops]
+  = [(true, None); (true, None); (true, None); (true, None)] /\
+  last (run 60000 C03_fixed_A_ops) = Some [0; 1; 1; 0; 1; 0; 0; 1; 1; 1000] /\
+  last (run 60000 C03_fixed_B_ops) = Some [0; 0; 1; 2; 3; 1; 2; 1; 1; 0; 1; 0; 0; 2; 1; 1000] /\
+  last (run 60000 C03_fixed_C_ops) = Some [0; 3; 2; 3; 1; 1; 1; 0; 0; 0; 3; 1; 1000] /\
+  nth 7 (run 60000 C03_fixed_G_ops) [] = [0; 2; 2; 0; 1; 0; 1; -1; 1; 1; 0; 1; 0; 0; 1; 1; 1000] /\
+  last (run 60000 C03_fixed_G_ops) = Some [0].
+Proof. vm_compute. repeat split; reflexivity. Qed.
